@@ -428,6 +428,7 @@ func (r *resolver) Resolve(ctx context.Context, vk resolve.VersionKey) (*resolve
 	}
 
 	g.Duration = time.Since(start)
+	verifDumpTree(root)
 	return g, nil
 }
 
